@@ -79,13 +79,15 @@ theorem C08_retry_statuses_fact : Facts.retryRunningStatuses =
      "isGameRunning := funk.Contains(gameStartingStatuses, te.table.State.Status)"] := by decide
 
 /-- **C08 — the retry loop tries again in earnest**: 3 s after a refused attempt, unless the table shows a hand by then,
+the table was closed or released meanwhile,
 the blinds are still unset or a break has begun, the turn is `openGame` + `startGame` exactly as on the first attempt
 (between hands too: `standby` is not a hand status) — the outcome is again the seat manager's alone. -/
 theorem C08_retry_reaches_positions (s : State) (ch : Option Int) (ok : Bool)
+    (hr : s.released = false) (hc : s.status ≠ .closed)
     (hh : inHandStatus s.status = false) (hs : s.blind.isSet = true) (hb : s.blind.isBreaking = false) :
     retryOpen s ch ok = openCore s ch ok := by
   unfold retryOpen
-  simp [hh, hs, hb]
+  simp [hr, hc, hh, hs, hb]
 
 example : inHandStatus .standby = false ∧ inHandStatus .created = false ∧ inHandStatus .pausing = false := by decide
 
